@@ -550,13 +550,12 @@ namespace {
          for (auto& f : fams) {
             opt.kick();
             // insertion in the order of this job (ascending / descending / bit-reversed key order)
+            // the node returned by the FIRST request for each key is what every later request must return
+            std::vector<const void*> canon(N);
             for (int i = 0; i < N; ++i) {
-               (void) f.make(order(ins_order, i));
+               canon[order(ins_order, i)] = f.make(order(ins_order, i));
                rep.count("transitions");
             }
-            // collect canonical nodes in ascending order, then verify the three orders again and count distinct nodes
-            std::vector<const void*> canon(N);
-            for (int i = 0; i < N; ++i) canon[i] = f.make(i);
             std::unordered_map<const void*, int> seen;
             bool bad = false;
             for (int i = 0; i < N and not bad; ++i) {
